@@ -13,6 +13,7 @@ theorem prepared_as_modelled :
     Gen.stmts_WritePreparedMessage =
       ["frameType, frameData, err := pm.frame(prepareKey{ isServer: c.isServer, compress: c.newCompressionWriter != nil && c.enableWriteCompression && isData(pm.messageType), compressionLevel: c.compressionLevel, })",
         "if err != nil { return err }",
+        "if isData(pm.messageType) && c.writer != nil { c.writer.Close() c.writer = nil }",
         "if c.isWriting { panic(\"concurrent write to websocket connection\") }",
         "c.isWriting = true",
         "err = c.write(frameType, c.writeDeadline, frameData, nil)",
